@@ -165,6 +165,7 @@ struct Work {
     known: Vec<KnownFinding>,
     replays_dir: String,
     tree: String,
+    seek_cap: u64,
 }
 
 struct Current {
@@ -441,6 +442,11 @@ impl Driver for WorkDriver {
                 }
                 slot -= st.share;
             }
+            // seek strata (inputs of listed findings; each hit of a listed panic costs a process
+            // restart) do not need millions of runs: beyond the cap their slots go to the first stratum
+            if w.strata[chosen].name.starts_with("seek-") && index >= w.seek_cap {
+                chosen = 0;
+            }
             let st = &w.strata[chosen];
             let prepared = (st.gen)(&mut rng, st.name);
             sched::arm(&prepared.scenario.sched);
@@ -598,6 +604,7 @@ fn cmd_run(args: &[String]) -> i32 {
         known: known_list,
         replays_dir,
         tree,
+        seek_cap: std::env::var("VERIF_SEEK_CAP").ok().and_then(|s| s.parse().ok()).unwrap_or(240_000),
     };
     SHARED.with(|s| {
         *s.borrow_mut() =
@@ -706,6 +713,7 @@ fn cmd_replay(args: &[String]) -> i32 {
         known: vec![],
         replays_dir: "/tmp".to_string(),
         tree: String::new(),
+        seek_cap: u64::MAX,
     };
     SHARED.with(|s| {
         *s.borrow_mut() = Some(Shared {
@@ -778,6 +786,7 @@ fn cmd_rerecord(args: &[String]) -> i32 {
         known: vec![],
         replays_dir: "/tmp".to_string(),
         tree: String::new(),
+        seek_cap: u64::MAX,
     };
     let keep = rf.clone();
     SHARED.with(|s| {
